@@ -367,10 +367,11 @@ func fieldOf(path string) string {
 }
 
 type replayer struct {
-	ua, ub bool
-	sum    *hx.Summary
-	seen   map[string]bool
-	skips  map[string]int
+	noTriples bool // quick tier: triples for the first two instantiations of a kind only
+	ua, ub    bool
+	sum       *hx.Summary
+	seen      map[string]bool
+	skips     map[string]int
 }
 
 func (rp *replayer) caseOf(in *inst, v *vec) map[string]interface{} {
@@ -470,7 +471,7 @@ func (rp *replayer) pairsU(in *inst, vecs []*vec, useName, useVal, ua, ub bool) 
 				check(v.A, v.B, v.Dup, v)
 			}
 		case "triple":
-			if ok(v.A) && ok(v.B) && ok(v.C) {
+			if !rp.noTriples && ok(v.A) && ok(v.B) && ok(v.C) {
 				ab := check(v.A, v.B, v.AB, v)
 				bc := check(v.B, v.C, v.BC, v)
 				ac := check(v.A, v.C, v.AC, v)
@@ -572,8 +573,12 @@ func (rp *replayer) octets(k rw.Kind, names []string, vecs []*vec) {
 		}
 	}
 	for _, v := range vecs {
-		if v.Kind != "octet" {
+		if v.Kind != "octet" && v.Kind != "name2" {
 			continue
+		}
+		what := "octet-xor-0x20"
+		if v.Kind == "name2" { // two label sequences: a dot octet inside a label is not a label boundary
+			what = "label-sequence"
 		}
 		try := func(where, field string, set func(rr dns.RR, s string)) {
 			ra, rb := k.Build(), k.Build()
@@ -581,11 +586,11 @@ func (rp *replayer) octets(k rw.Kind, names []string, vecs []*vec) {
 			set(rb, v.Tb.String())
 			g1, g2 := dns.IsDuplicate(ra, rb), dns.IsDuplicate(rb, ra)
 			rp.sum.Evaluations += 2
-			rp.seen[kn+"/xor20-"+where+"/"+strconv.FormatBool(g1)] = true
+			rp.seen[kn+"/"+what+"-"+where+"/"+strconv.FormatBool(g1)] = true
 			if g1 == v.Dup && g2 == v.Dup {
 				return
 			}
-			key := "isduplicate/false-positive:" + kn + ":" + where + "-octet-xor-0x20" + field
+			key := "isduplicate/false-positive:" + kn + ":" + where + "-" + what + field
 			if v.Dup {
 				key = "isduplicate/false-negative:" + kn + ":" + where + "-case" + field
 				if never {
@@ -594,8 +599,8 @@ func (rp *replayer) octets(k rw.Kind, names []string, vecs []*vec) {
 			}
 			c := *v
 			c.RKind = k.Name
-			rp.sum.Mis(key, fmt.Sprintf("%s: IsDuplicate = %v / %v for %s %q vs %q (octet %d vs %d), Dup.tla says %v",
-				k.Name, g1, g2, where, v.Ta.String(), v.Tb.String(), v.Oct, v.Oct^0x20, v.Dup), map[string]interface{}{"vector": c})
+			rp.sum.Mis(key, fmt.Sprintf("%s: IsDuplicate = %v / %v for %s %q vs %q (%s), Dup.tla says %v",
+				k.Name, g1, g2, where, v.Ta.String(), v.Tb.String(), what, v.Dup), map[string]interface{}{"vector": c})
 		}
 		if v.W == 1 {
 			try("owner", "", func(rr dns.RR, s string) { rr.Header().Name = s })
@@ -732,8 +737,11 @@ func replay(path string, shard, nshards int, only string) {
 		// every name cell and every other cell is the cell under test once, accompanied by
 		// the first cell of the other class with which the instantiation is faithful
 		covered := map[string]bool{}
-		unsorted := 0
+		unsorted, ninst := 0, 0
 		run := func(in *inst) {
+			ninst++
+			rp.noTriples = ninst > 2 && !hx.Thorough()
+			defer func() { rp.noTriples = false }()
 			rp.pairs(in, vecs, in.namePath != "", in.valPath != "")
 			covered[in.namePath], covered[in.valPath] = true, true
 			// the same records with their lists in another order, where the order is not part of
@@ -1283,6 +1291,109 @@ func addrSweep(k rw.Kind, never bool, w *hx.Writer, sum *hx.Summary, seen map[st
 	}
 }
 
+// spellSweep: for every field whose text is an ENCODING (hex, base64, base32hex) the partner
+// whose text differs in letter case only -- the octets differ for base64 and are the same for
+// hex and base32hex -- and for the owner and every embedded name spellings that differ in
+// escaping only (\. / \046, \097 / a: the same octets) or in a label boundary against a dot
+// octet (a\.b / a.b: different octets).  The verdict is the specification's, on the packed
+// octets.  Records as built are observed only where the octets differ (whether two spellings
+// of the same octets are "duplicates" before they ever were on the wire is AMBIG in the
+// statement); the records decoded from those octets always.
+func spellSweep(k rw.Kind, never bool, w *hx.Writer, sum *hx.Summary, seen map[string]bool) {
+	if k.Type == dns.TypeOPT {
+		return
+	}
+	base := k.Build()
+	_, cells := rw.WalkCells(base)
+	type job struct {
+		path, rel string
+		a, b      func(old string) string
+	}
+	var jobs []job
+	id := func(s string) string { return s }
+	flipOne := func(s string) string { // the case of the first letter only
+		for i := 0; i < len(s); i++ {
+			if c := s[i] | 0x20; c >= 'a' && c <= 'z' {
+				return s[:i] + swapCase(s[i:i+1]) + s[i+1:]
+			}
+		}
+		return s
+	}
+	names := [][3]string{
+		{"label-boundary-vs-dot-octet", "a\\.b.example.", "a.b.example."},
+		{"label-boundary-vs-dot-octet", "a\\046b.example.", "a.b.example."},
+		{"escaping-only", "a\\.b.example.", "a\\046b.example."},
+		{"escaping-only", "\\097.b.example.", "a.b.example."},
+		{"escaping-only", "a\\\\b.example.", "a\\092b.example."},
+		{"escaped-backslash-vs-none", "a\\\\b.example.", "ab.example."},
+	}
+	for _, c := range cells {
+		if c.Ref || c.Kind != reflect.String || strings.Contains(c.Path, ".Hdr.") {
+			continue
+		}
+		switch {
+		case isNameTag(c.Tag):
+			for _, n := range names {
+				n := n
+				jobs = append(jobs, job{c.Path, "name-" + n[0], func(string) string { return n[1] }, func(string) string { return n[2] }})
+			}
+		case c.Tag == "hex" || c.Tag == "size-hex" || c.Tag == "base64" || c.Tag == "size-base64" || c.Tag == "size-base32" || c.Tag == "base32":
+			jobs = append(jobs, job{c.Path, "encoded-text-case:" + c.Tag, id, swapCase}, job{c.Path, "encoded-text-one-letter-case:" + c.Tag, id, flipOne})
+		}
+	}
+	for _, n := range names {
+		n := n
+		jobs = append(jobs, job{"", "owner-" + n[0], func(string) string { return n[1] }, func(string) string { return n[2] }})
+	}
+	describe := func(rr dns.RR) (dns.RR, *wireRec) {
+		wb, err := packRR(rr)
+		if err != nil {
+			return nil, nil
+		}
+		u, off, err := dns.UnpackRR(wb, 0)
+		if err != nil || off != len(wb) {
+			return nil, nil
+		}
+		ow, rd := rdataOf(wb)
+		h := u.Header()
+		return u, &wireRec{T: int(h.Rrtype), C: int(h.Class), Ow: hx.FromBytes(ow), Rd: hx.FromBytes(rd), Spans: spans(rr, rd)}
+	}
+	for _, j := range jobs {
+		mk := func(f func(string) string) dns.RR {
+			rr := k.Build()
+			if j.path == "" {
+				rr.Header().Name = f(rr.Header().Name)
+			} else {
+				c := cellAt(rr, j.path)
+				c.V.SetString(f(c.V.String()))
+			}
+			return rr
+		}
+		a, b := mk(j.a), mk(j.b)
+		ua, wa := describe(a)
+		ub, wb := describe(b)
+		if ua == nil || ub == nil {
+			continue
+		}
+		ub2, _ := describe(b)
+		same := bytes.Equal(wa.Rd.Bytes(), wb.Rd.Bytes()) && bytes.Equal(wa.Ow.Bytes(), wb.Ow.Bytes())
+		for _, mode := range []string{"as-built", "from-the-wire"} {
+			x, y := a, b
+			if mode == "from-the-wire" {
+				x, y = ua, ub
+			} else if same {
+				continue // AMBIG
+			}
+			e := &event{Ev: "pair", K: k.Name, Rel: j.rel + ":" + mode, A: wa, B: wb,
+				Dup: dns.IsDuplicate(x, y), RDup: dns.IsDuplicate(y, x), Self: dns.IsDuplicate(ub, ub2), Never: never, Repack: true, Mut: fieldOf(j.path)}
+			e.I = w.N + 1
+			w.Emit(e)
+			sum.Evaluations++
+			seen[k.Name+"/"+e.Rel+"/"+strconv.FormatBool(e.Dup)] = true
+		}
+	}
+}
+
 func neverDup(k rw.Kind) bool {
 	w, err := packRR(k.Build())
 	if err != nil {
@@ -1309,6 +1420,7 @@ func sweep(out string, shard, nshards int) {
 		base := k.Build()
 		never := neverDup(k)
 		addrSweep(k, never, w, sum, seen)
+		spellSweep(k, never, w, sum, seen)
 		wb, err := packRR(base)
 		if err != nil {
 			continue
